@@ -178,7 +178,7 @@ func c01Nontrivial(p *progen.Program) bool {
 func TestC01(t *testing.T) {
 	rc.Check(t, func(t *rapid.T) {
 		var c c01Case
-		c.Cmd = rapid.SampledFrom([]string{"build", "build", "build", "run"}).Draw(t, "cmd")
+		c.Cmd = rapid.SampledFrom([]string{"build", "build", "build", "build", "run", "test"}).Draw(t, "cmd")
 		c.Spec = progen.Draw(t, progen.Options{Kinds: c01Kinds(c.Cmd), MinPkgs: 1, MaxPkgs: 5, MinFeats: 2, MaxFeats: 8})
 		c.Cfg = drawConfig(t, "cfg", true)
 		v, prog, labels := c01Run(c)
